@@ -97,7 +97,10 @@ def wf(tok: str) -> float:
         return math.copysign(math.inf, m)
     if e < -2300:
         return math.copysign(0.0, m)
-    return math.ldexp(float(m), e)
+    try:
+        return math.ldexp(float(m), e)
+    except OverflowError:
+        return math.copysign(math.inf, m)
 
 
 def reply_floats(rep: str):
@@ -123,8 +126,11 @@ class PolyKernel(nn.Module):
     def __init__(self, c1, c2, c3):
         super().__init__()
         self.c = (c1, c2, c3)
+        self.armed = False
 
     def forward(self, input):
+        if getattr(self, "armed", False):
+            raise RuntimeError("user kernel callback raises (armed by the harness)")
         x = input
         c1, c2, c3 = self.c
         return c1 * x + c2 * (x * x) + c3 * (x * x * x)
@@ -136,8 +142,11 @@ class LinKernel(nn.Module):
     def __init__(self, c):
         super().__init__()
         self.c = c
+        self.armed = False
 
     def forward(self, input):
+        if getattr(self, "armed", False):
+            raise RuntimeError("user kernel callback raises (armed by the harness)")
         return self.c * input
 
 
@@ -147,8 +156,9 @@ def build_kernel(spec):
         return LinKernel(p[0]) if spec.get("affine") else PolyKernel(*p)
     K = ppk()
     if k == "tolerant":
-        return K.Tolerant(p[0], p[1])
-    return getattr(K, CLS[k])(p[0])
+        return K.Tolerant(a=p[0], b=p[1]) if spec.get("kwargs") else K.Tolerant(p[0], p[1])
+    d = int(p[0]) if spec.get("int") and float(p[0]).is_integer() else p[0]          # python int where a float is usual
+    return getattr(K, CLS[k])(delta=d) if spec.get("kwargs") else getattr(K, CLS[k])(d)
 
 
 def spec_wire(spec):
@@ -337,6 +347,8 @@ def x_cap(spec, dtn) -> float:
         return min(big, math.sqrt(big) * p[0] * p[0])
     if k == "huber":
         return min(big, big ** (2.0 / 3.0))
+    if k == "poly":
+        return big ** 0.3           # x^3 of the user polynomial stays finite
     return big
 
 
@@ -438,13 +450,21 @@ def check_kernel(ctx: Ctx, case, kobj=None):
     if tuple(y.shape) != tuple(x.shape) or y.dtype != x.dtype:
         ctx.fail(case, f"kernel-shape: {spec['kind']} returned shape {tuple(y.shape)} dtype {y.dtype} for input {tuple(x.shape)} {x.dtype}")
         return None
-    xs = x.flatten().double().tolist()
+    if not kernel_value_oracle(ctx, case, spec, dtn, x, y):
+        return None
+    return x, y
+
+
+def kernel_value_oracle(ctx, case, spec, dtn, x, y):
+    """documented closed form (mpmath), rho(0) = 0, finite, non-decreasing — on the real output y = kernel(x)"""
+    eps = common.EPS[dtn]
+    xs = x.detach().flatten().double().tolist()
     ys = y.detach().flatten().double().tolist()
     bad = None
     for j, (xv, yv) in enumerate(zip(xs, ys)):
         if not math.isfinite(yv):
             ctx.fail(case, f"kernel-finite: {spec['kind']}{spec['p']} ({dtn}) gives {yv} at x={xv!r}")
-            return None
+            return False
         want = mp_val(spec, xv)
         tol = TOLK * eps * val_scale(spec, xv) + 4 * TINY[dtn]
         if abs(mp.mpf(yv) - want) > tol and bad is None:
@@ -460,7 +480,7 @@ def check_kernel(ctx: Ctx, case, kobj=None):
         if ys[b] < ys[a] - tol:
             ctx.fail(case, f"kernel-monotone: {spec['kind']}{spec['p']} ({dtn}): rho({xs[a]!r})={ys[a]!r} > rho({xs[b]!r})={ys[b]!r}")
             break
-    return x, y
+    return True
 
 
 def compare_kernel(ctx, case, x, y, rep):
@@ -1036,8 +1056,12 @@ class Recorder(nn.Module):
     def __init__(self):
         super().__init__()
         self.calls = []
+        self.raise_next = False
 
     def forward(self, A, b):
+        if self.raise_next:
+            self.raise_next = False
+            raise RuntimeError("linear solver fails (injected by the harness)")
         self.calls.append((A.detach().clone(), b.detach().clone()))
         return torch.zeros(A.shape[-1], 1, dtype=A.dtype)
 
@@ -1073,16 +1097,55 @@ def select_objects(case):
     return kpool, kernel, corrector
 
 
+def weight_arg(case, shapes, dt):
+    """weight= as documented: one square matrix per residual (a list for several residuals); here w_k * I with w_k a power of 2"""
+    if not case.get("weight"):
+        return None
+    ws = [torch.eye(d, dtype=dt) * w for (n, d), w in zip(shapes, case["weight"]["w"])]
+    return ws if len(ws) > 1 else ws[0]
+
+
 def build_opt(case, Ms, shapes, theta, kernel, corrector):
     import pypose as pp
     model = LinModel(Ms, shapes, theta)
     rec = Recorder()
+    wt = weight_arg(case, shapes, theta.dtype) if case.get("weight", {}).get("where") == "ctor" else None
+    kw = {"vectorize": case.get("vectorize", True)}
+    if wt is not None:
+        kw["weight"] = wt
     if case["opt"] == "GN":
-        opt = pp.optim.GN(model, solver=rec, kernel=kernel, corrector=corrector)
+        opt = pp.optim.GN(model, solver=rec, kernel=kernel, corrector=corrector, **kw)
     else:
-        opt = pp.optim.LM(model, solver=rec, kernel=kernel, corrector=corrector,
-                          strategy=pp.optim.strategy.Constant(damping=case["damping"]))
+        st = case.get("strategy", "constant")
+        S = pp.optim.strategy
+        strat = {"constant": lambda: S.Constant(damping=case["damping"]), "adaptive": lambda: S.Adaptive(damping=case["damping"]),
+                 "trust": lambda: S.TrustRegion(radius=1.0 / case["damping"])}[st]()
+        opt = pp.optim.LM(model, solver=rec, kernel=kernel, corrector=corrector, strategy=strat, **case.get("lm", {}), **kw)
     return model, opt, rec
+
+
+def step_args(case, y, shapes, dt):
+    """how the caller passes the data: as model input (default) or as `target` (then the model input is a zero offset);
+    weight at construction or per step"""
+    wt = weight_arg(case, shapes, dt) if case.get("weight", {}).get("where") == "step" else None
+    if case.get("use_target"):
+        zs = [torch.zeros_like(t) for t in y]
+        tg = [(-t).view(sh) for t, sh in zip(y, shapes)]
+        args = {"input": zs, "target": tg if len(tg) > 1 else tg[0]}
+    else:
+        args = {"input": y}
+    if wt is not None:
+        args["weight"] = wt
+    return args
+
+
+def do_step(case, opt, y, shapes, dt, quiet=True):
+    import contextlib, io
+    args = step_args(case, y, shapes, dt)
+    with contextlib.redirect_stdout(io.StringIO()):
+        if case.get("positional") and "weight" not in args:
+            return opt.step(args["input"], args.get("target"))
+        return opt.step(**args)
 
 
 NSTEPS = 3
@@ -1239,10 +1302,39 @@ def check_select(ctx: Ctx, case, pre=None):
                 for M in Ms:                          # the model's own constants change in place too
                     M.mul_(1.25)
         y_before = [t.clone() for t in y]
-        ncalls = len(rec.calls)
         theta0 = model.theta.detach().clone()
+        dt = DT[dtn]
+        wk = case["weight"]["w"] if case.get("weight") else [1.0] * nres
+        # --- a step in which the linear solver raises (GN propagates, LM catches it): nothing may have changed afterwards,
+        #     and the retried step below must equal the step of a history without the failed one (compared with fresh)
+        if case.get("fail_step") == step and "-" not in sc:
+            n_before, st_before = len(rec.calls), {k: repr(v) for k, v in vars(opt).items() if k in ("reject", "reject_count", "sparse")}
+            rec.raise_next = True
+            try:
+                do_step(case, opt, y, shapes, dt)
+                fr = None
+            except Exception as e:
+                fr = type(e).__name__
+            rec.raise_next = False
+            ctx.count(f"select.solver-raises.{case['opt']}.{'propagated' if fr else 'caught'}")
+            if not torch.equal(model.theta.detach(), theta0) or any(not torch.equal(t, t0) for t, t0 in zip(y, y_before)) or len(rec.calls) != n_before:
+                ctx.fail({**clean(case), "step": step}, f"select-atomic: after a step whose solver raised ({fr or 'caught by LM'}) the parameters / inputs / "
+                         f"solver history of {case['opt']} are not what they were before")
+                return
+        copy_sys = None
+        if case.get("deepcopy") and step == NSTEPS - 1 and "-" not in sc:
+            # a deep copy of the whole optimiser, stepped first: copy and original must each hand over the same system
+            import copy
+            try:
+                optc = copy.deepcopy(opt)
+                do_step(case, optc, [t.clone() for t in y], shapes, dt)
+                copy_sys = optc.solver.calls[-len(optc.solver.calls) + len(rec.calls)] if len(optc.solver.calls) > len(rec.calls) else None
+            except Exception as e:
+                ctx.count(f"select.deepcopy-unsupported.{type(e).__name__}")      # observation only (scope rule)
+                copy_sys = None
+        ncalls = len(rec.calls)
         try:
-            loss = opt.step(y)
+            loss = do_step(case, opt, y, shapes, dt)
             raised = None
         except Exception as e:
             raised = type(e).__name__
@@ -1264,8 +1356,20 @@ def check_select(ctx: Ctx, case, pre=None):
             ctx.fail({**clean(case), "step": step}, f"select-finite: {case['opt']} hands a non-finite system / loss to the solver "
                      f"(kernel={case['karg']}, corrector={case['carg']}, loss={loss})")
             return
+        if copy_sys is not None and not ((torch.equal(copy_sys[0], A) or (case["opt"] == "LM" and case.get("strategy", "constant") != "constant"))
+                                         and torch.equal(copy_sys[1], b)):
+            ctx.fail({**clean(case), "step": step}, f"select-copy: a deep copy of the {case['opt']} optimiser, stepped on the same data just before the "
+                     f"original, handed its solver a different system (max |dA| {float((copy_sys[0] - A).abs().max()):.3e}, max |db| {float((copy_sys[1] - b).abs().max()):.3e})")
+            return
+        if not torch.equal(model.theta.detach(), theta0):
+            ctx.fail({**clean(case), "step": step}, "select-atomic: a zero step changed the parameters")
+            return
         # residuals and Jacobians of the linear model (exact by construction)
         Rs = [(M @ theta0 + yy).view(sh) for M, yy, sh in zip(Ms, y, shapes)]
+        # rows of residual j carry the weight w_j (power of two: removing it is exact)
+        roww = torch.cat([torch.full((n * d,), float(w), dtype=dt) for (n, d), w in zip(shapes, wk)])
+        if case["opt"] == "GN":
+            A, b = A / roww[:, None], b / roww[:, None]
         # --- oracle (real objects): residual j is corrected by corrector[0] if len == 1 else corrector[j]; the loss applies
         #     kernel[j] (kernel[0] if one kernel); a fresh optimiser at the same state hands over the same system
         try:
@@ -1280,8 +1384,8 @@ def check_select(ctx: Ctx, case, pre=None):
             if case["opt"] == "GN":
                 sel_ok = close_to(-b[:, 0], Rcat, eps) and close_to(A, Jcat, eps, 64 * eps * Jcat.double().abs().amax() if Jcat.numel() else None)
             else:
-                wantb = ld(Jcat).T @ ld(Rcat)
-                scb = np.abs(ld(Jcat)).T @ np.abs(ld(Rcat))
+                wantb = ld(Jcat).T @ (ld(roww) * ld(Rcat))
+                scb = np.abs(ld(Jcat)).T @ (ld(roww) * np.abs(ld(Rcat)))
                 sel_ok = bool((np.abs(-ld(b)[:, 0] - wantb) <= 16 * eps * scb + 16 * TINY[dtn]).all())
             if not sel_ok:
                 ctx.fail({**clean(case), "step": step}, f"select-index: {case['opt']} step {step}: the system handed to the solver is not "
@@ -1303,9 +1407,13 @@ def check_select(ctx: Ctx, case, pre=None):
             if step > 0:
                 kp2, k2, c2 = select_objects(case)
                 m2, o2, r2 = build_opt(case, [M.clone() for M in Ms], shapes, theta0.clone(), k2, c2)
-                l2 = o2.step([t.clone() for t in y])
+                l2 = do_step(case, o2, [t.clone() for t in y], shapes, dt)
                 A2, b2 = r2.calls[0]
-                if not (close_to(A, A2, eps, 16 * eps * A2.double().abs().amax()) and close_to(b, b2, eps, 16 * eps * b2.double().abs().amax())):
+                if case["opt"] == "GN":
+                    A2, b2 = A2 / roww[:, None], b2 / roww[:, None]
+                # (LM with an adaptive strategy legitimately carries its damping from step to step: only b is history-free there)
+                same_A = case["opt"] == "LM" and case.get("strategy", "constant") != "constant" or close_to(A, A2, eps, 16 * eps * A2.double().abs().amax())
+                if not (same_A and close_to(b, b2, eps, 16 * eps * b2.double().abs().amax())):
                     ctx.fail({**clean(case), "step": step}, f"select-history: step {step} on a reused {case['opt']} (targets / parameters updated in place "
                              f"between steps) hands the solver a different system than a fresh optimiser in the same state: max |dA| "
                              f"{float((A - A2).abs().max()):.3e}, max |db| {float((b - b2).abs().max()):.3e}")
@@ -1344,11 +1452,11 @@ def check_select(ctx: Ctx, case, pre=None):
                 nums = reply_floats(reps[j])
                 Rm = np.array(nums[:n * d], dtype=np.longdouble).reshape(n * d)
                 Jm = np.array(nums[n * d:n * d + n * d * case["p"]], dtype=np.longdouble).reshape(n * d, case["p"])
-                tot += Jm.T @ Rm
+                tot += float(wk[j]) * (Jm.T @ Rm)
                 # per item conditioning (no global magnitude factor): each row weighted by its own amplification
                 ampj = np.repeat(np.array([item_amp(kinds[j]["spec"], float(x)) for x in Rs[j].double().square().sum(-1).flatten().tolist()],
                                           dtype=np.longdouble), d)
-                sca += np.abs(Jm).T @ (ampj * np.abs(Rm))
+                sca += float(wk[j]) * (np.abs(Jm).T @ (ampj * np.abs(Rm)))
             got = -ld(b)[:, 0]
             tol = TOLK * eps * sca + 16 * TINY[dtn]
             if (np.abs(got - tot) > tol).any():
@@ -1370,10 +1478,11 @@ def check_select(ctx: Ctx, case, pre=None):
             ctx.disagree("select", {**clean(case), "step": step}, f"loss {float(loss)!r} != model {float(want)!r} (loss kernels {lk})")
             broken = True
         # --- oracle: the direction handed to the solver is the gradient of the loss the optimiser reports
-        if consistent:
+        if consistent and all(w == 1.0 for w in wk):
             try:
                 with torch.enable_grad():
-                    L = opt.model.loss(y, None)
+                    la = step_args(case, y, shapes, dt)
+                    L = opt.model.loss(la["input"], la.get("target"))
                     g, = torch.autograd.grad(L, model.theta)
             except Exception as e:
                 ctx.fail({**clean(case), "step": step}, f"select-oracle-raises: loss / autograd raises {type(e).__name__}: {str(e)[:160]}")
@@ -1437,7 +1546,30 @@ def gen_select_case(rng):
         carg = mk(2 * nk, True)
     return {"stream": "select", "opt": rng.choice(["GN", "LM"]), "dtype": rng.choice(["float64", "float64", "float32"]),
             "p": rng.randint(1, 3), "shapes": shapes, "kspecs": kspecs, "karg": karg, "carg": carg, "tuple": rng.random() < 0.3,
-            "damping": rng.choice([1e-6, 1e-3, 1.0]), "data_seed": rng.randrange(1 << 30)}
+            "damping": rng.choice([1e-6, 1e-3, 1.0]), "data_seed": rng.randrange(1 << 30), **select_extras(rng, nres)}
+
+
+def select_extras(rng, nres, full=False):
+    """keyword arguments nobody varies together: vectorize, data passed as target, weight (at construction / per step),
+    LM strategy and bounds, positional call; a solver that raises in one step; a deep copy of the optimiser"""
+    ex = {}
+    if rng.random() < 0.3:
+        ex["vectorize"] = False
+    if rng.random() < 0.35:
+        ex["use_target"] = True
+    if rng.random() < 0.3:
+        ex["weight"] = {"where": rng.choice(["ctor", "step"]), "w": [rng.choice([0.5, 2.0, 4.0, 1.0]) for _ in range(nres)]}
+    if rng.random() < 0.5:
+        ex["strategy"] = rng.choice(["constant", "adaptive", "trust"])
+    if rng.random() < 0.3:
+        ex["lm"] = {"min": rng.choice([1e-6, 1e-3]), "max": rng.choice([1e32, 1e3]), "reject": rng.choice([0, 1, 16])}
+    if rng.random() < 0.3:
+        ex["positional"] = True
+    if rng.random() < 0.3:
+        ex["fail_step"] = rng.randrange(NSTEPS)
+    if rng.random() < 0.3:
+        ex["deepcopy"] = True
+    return ex
 
 
 def run_select(ctx: Ctx, cases):
@@ -1633,6 +1765,7 @@ def check_history(ctx: Ctx, case, lines=None, metas=None):
     held_alias = False
     held = None            # caller-held tensors of the previous call (for the in-place / stale-read calls)
     held_key = None
+    kept = {}              # object index -> (returned tensors, their values) of its previous call, still held by the caller
     for ci, call in enumerate(case["calls"]):
         cc = {**clean(case), "call": ci}
         O = get_obj(call.get("obj", 0))
@@ -1647,30 +1780,37 @@ def check_history(ctx: Ctx, case, lines=None, metas=None):
         fresh = fresh_k if which == "kernel" else build_corrector(which, fresh_k)
         # ---- a deliberately failing call in between: must raise and leave everything as it was (atomicity)
         if call.get("fail"):
+            # only exceptions that a VALID use produces (scope rule): the documented non-negativity assertion of a kernel,
+            # a user kernel callback that raises inside a corrector, FastTriggs' documented refusal of inference mode
             bad = [t.clone() for t in ref_in]
-            expect = True
-            if which == "kernel":
-                if bad[0].numel() == 0:
-                    continue
+            how = None
+            if which == "kernel" and bad[0].numel() and spec["kind"] != "poly":
                 flat = bad[0].reshape(-1)
                 flat[rng.randrange(flat.numel())] = -abs(float(own_scale(spec))) * 0.3 - 1e-3
-            elif call["fail"] == "badJ" and bad[1].shape[0] > 1:
-                bad[1] = torch.cat([bad[1], bad[1][:1]])
-            else:
-                bad[0] = bad[0].tolist()           # not a tensor at all
+                how = "negative"
+            elif spec["kind"] == "poly":
+                kobj.armed = True
+                how = "callback"
+            elif which == "fast":
+                how = "inference"
+            if how is None:
+                continue
             try:
-                apply_obj(which, obj, bad, "plain", kwm)
+                apply_obj(which, obj, bad, "inference" if how == "inference" else "plain", kwm)
                 raised = False
             except Exception:
                 raised = True
-            ctx.count(f"history.failing-call.{'raised' if raised else 'accepted'}")
-            if which == "kernel" and not raised:
+            finally:
+                if how == "callback":
+                    kobj.armed = False
+            ctx.count(f"history.failing-call.{how}.{'raised' if raised else 'accepted'}")
+            if how == "negative" and not raised:
                 ctx.fail(cc, f"negative-accepted: {spec['kind']}{spec['p']} accepts a tensor with a negative element in the middle of a history")
                 return
-            if pub_state(obj) != O["st0"] or pub_state(kobj) != O["kst0"] or set(vars(obj)) != set(vars(obj)):
-                ctx.fail(cc, f"history-atomic: a failing call changed public attributes of the {which}/{spec['kind']} object")
+            if pub_state(obj) != O["st0"] or pub_state(kobj) != O["kst0"]:
+                ctx.fail(cc, f"history-atomic: a call that raised ({how}) changed public attributes of the {which}/{spec['kind']} object")
                 return
-            continue
+            continue            # the following calls must behave as if the failed call had never happened (compared with fresh)
         try:
             key = (which, tuple(tuple(t.shape) for t in ref_in), dtn)
             if layout == "inplace" and held is not None and not held_alias and held_key == key:
@@ -1753,6 +1893,17 @@ def check_history(ctx: Ctx, case, lines=None, metas=None):
                 ctx.fail(cc, f"history-state: public attributes of object {oi} ({Oo['which']}/{Oo['spec']['kind']}) changed during call {ci} on object {call.get('obj', 0)}")
                 return
         out_vals = tuple(o.detach().clone() for o in out)
+        # results returned EARLIER (by any object of the history) still hold their values: no shared output buffer / state
+        for oi2, (ots, ovs) in list(kept.items()):
+            for o_old, v_old in zip(ots, ovs):
+                if not torch.equal(torch.nan_to_num(o_old.detach(), nan=1.5), torch.nan_to_num(v_old, nan=1.5)):
+                    ctx.fail(cc, f"history-overlap: a result returned earlier by object {oi2} changed when object {call.get('obj', 0)} ({which}) was called again "
+                                 f"(call {ci}): results do not own their memory")
+                    return
+        if gmode != "inference" and not call.get("mutate_out"):
+            kept[call.get("obj", 0)] = (out, out_vals)
+        else:
+            kept.pop(call.get("obj", 0), None)
         if call.get("mutate_out") and gmode != "inference":
             # the caller owns the results: overwriting them in place must not reach the inputs, the module or a later call
             with torch.no_grad():
@@ -1799,7 +1950,9 @@ def check_history(ctx: Ctx, case, lines=None, metas=None):
             elif N and not (bool(torch.isfinite(out[0]).all()) and bool(torch.isfinite(out[1]).all())):
                 ctx.fail(cc, f"corrector-finite: {which}({spec['kind']}{spec['p']}) call {ci} returns non-finite values")
                 return
-        elif ref_in[0].numel() and lines is not None:
+        elif ref_in[0].numel() and spec["kind"] != "poly":
+            kernel_value_oracle(ctx, cc, spec, dtn, ref_in[0], out[0])
+        if which == "kernel" and ref_in[0].numel() and lines is not None:
             sub = {**cc, "spec": spec, "dtype": dtn, "shape": call["shape"]}
             lines.append(kernel_line(sub, ref_in[0]))
             metas.append((sub, ref_in[0], out[0]))
@@ -1841,7 +1994,7 @@ def gen_history_case(rng, which, spec, ncalls=6, objects=None, kernels=None):
                 "zero": rng.random() < 0.5, "gmode": GMODES[(ci * 3 + rng.randrange(len(GMODES))) % len(GMODES)] if rng.random() < 0.8 else "plain",
                 "kw": rng.random() < 0.6, "ptype": "parameter" if rng.random() < 0.2 else "tensor", "mutate_out": rng.random() < 0.5}
         if ci and rng.random() < 0.15:
-            call["fail"] = rng.choice(["badJ", "badtype"])
+            call["fail"] = True
         if layout == "inplace" and prev is not None and which_of(prev["obj"]) == w:
             for k in ("dtype", "shape", "batch", "d", "p"):          # same tensors, new values
                 if k in prev:
@@ -2089,6 +2242,37 @@ def corner_corpus():
                 calls.append(call)
         H.append({"stream": "history", "which": which, "spec": {"kind": kind, "p": [float(v) for v in CORPUS_SPECS[kind][1]]},
                   "calls": calls, "data_seed": 4242})
+    # grad mode x call syntax x argument type matrix (values must not depend on any of them), special sizes N = d = p,
+    # a failing call in the middle, outputs overwritten by the caller
+    for which, spec in (("kernel", {"kind": "huber", "p": [2.0, 0.0, 0.0], "int": True}), ("kernel", {"kind": "huber", "p": [3.0, 0.0, 0.0], "int": True, "kwargs": True}),
+                        ("kernel", {"kind": "pseudohuber", "p": [3.0, 0.0, 0.0], "int": True}), ("kernel", {"kind": "tolerant", "p": [1.0, -0.05, 0.0], "kwargs": True}),
+                        ("fast", {"kind": "cauchy", "p": [0.5, 0.0, 0.0]}), ("triggs", {"kind": "cauchy", "p": [0.5, 0.0, 0.0]}),
+                        ("triggs", {"kind": "poly", "p": [1.0, 0.5, 0.0]}), ("fast", {"kind": "poly", "p": [0.7, 0.0, 0.0], "affine": True}),
+                        ("triggs", {"kind": "scale", "p": [0.5, 0.0, 0.0]}), ("triggs", {"kind": "huber", "p": [1.0, 0.0, 0.0], "int": True})):
+        calls = []
+        for gi, gm in enumerate(GMODES):
+            for kwm in (True, False):
+                k = [3, 1, 2, 5][(gi + kwm) % 4]
+                call = {"obj": 0, "dtype": "float64" if (gi + kwm) % 2 else "float32", "layout": "contig" if gm in ("req_R", "req_J", "req_both") or kwm else "strided",
+                        "data_seed": 7000 + 10 * gi + kwm, "zero": True, "gmode": gm, "kw": kwm, "ptype": "parameter" if (gi % 3 == 1 and kwm) else "tensor",
+                        "mutate_out": bool((gi + kwm) % 2)}
+                if which == "kernel":
+                    call["shape"] = [k, k]
+                else:
+                    call["batch"], call["d"], call["p"] = ([k] if gi % 2 else [k, k]), k, k          # N = d = p (and N = d^2)
+                calls.append(call)
+            if gi in (2, 5):
+                calls.append({**calls[-1], "fail": True, "data_seed": 7500 + gi})
+        H.append({"stream": "history", "which": which, "spec": spec, "calls": calls, "data_seed": 4343})
+    # several objects sharing kernels, and copies of them, interleaved in fixed orders
+    for oi, (k0, k1) in enumerate((("cauchy", "huber"), ("tolerant", "scale"), ("arctan", "pseudohuber"))):
+        ksp = [{"kind": k0, "p": [float(v) for v in CORPUS_SPECS[k0][1]]}, {"kind": k1, "p": [float(v) for v in CORPUS_SPECS[k1][1]]}]
+        H.append(gen_history_case(random.Random(3100 + oi), "fast", ksp[0], ncalls=24, objects=multi_objects(random.Random(3200 + oi), ksp), kernels=ksp))
+    # sign change of rho'' inside the batch, approached geometrically from both sides (mask threshold)
+    for dtn in ("float32", "float64"):
+        Cr.append({"stream": "triggs", "which": "triggs", "dtype": dtn, "batch": [2 * (20 if dtn == "float32" else 44) + 1], "d": 2, "p": 2,
+                   "data_seed": 8, "nograd": True, "force_zero_row": False, "sweep": True, "regime": "mixed-sweep",
+                   "spec": {"kind": "poly", "p": [1.0, -0.05, 0.05 / 3.0]}, "xref": 1.0})
     # every syntactic form of kernel= / corrector=
     kspecs = [{"kind": "huber", "p": [0.4, 0.0, 0.0]}, {"kind": "cauchy", "p": [1.5, 0.0, 0.0]}, {"kind": "poly", "p": [1.0, 0.3, 0.0]}]
     for nres in (1, 3):
@@ -2103,7 +2287,7 @@ def corner_corpus():
                 for oi, opt in enumerate(("GN", "LM")):
                     S.append({"stream": "select", "opt": opt, "dtype": "float64" if (len(S) % 3) else "float32", "p": 2,
                               "shapes": [[2, 3], [1, 1], [3, 2]][:nres], "kspecs": kspecs, "karg": kf, "carg": cf, "tuple": bool(len(S) % 2),
-                              "damping": 1e-3, "data_seed": 600 + len(S)})
+                              "damping": 1e-3, "data_seed": 600 + len(S), **select_extras(random.Random(5000 + len(S)), nres)})
     return K, Ng, Cr, H, S
 
 
